@@ -1857,7 +1857,11 @@ class Exec:
         for b in bodies:
             if not self.feasible(b):
                 continue
-            for o in self.block(n.body, [b]):
+            # while the body runs, the index of a for-loop is a binder: a sum computed in the body is a function of it
+            # (the same function symbol as the sum a clause writes under `forall q` over the same elements)
+            with binding(*([i] if is_for and is_z3(i) else [])):
+                body_outs = self.block(n.body, [b])
+            for o in body_outs:
                 if is_for:
                     o.ghost = dict(o.ghost)
                     o.ghost["lidx"] = tuple(h.ghost.get("lidx", ()))
